@@ -7,12 +7,19 @@ statuses, ErrorResult and user defined types, declared flags; every declared err
 Spaces: base (one level per error, responses on the method), place1 (every placement alone), pair (all ordered
 pairs of placements: exhaustive; quick runs its cut pairq - one pair per ordered pair of resolution paths, rotated by
 the seed - through real code), triple (three errors, TLC simulation).
-(G) every case runs through the real generated server and client; status, goa-error header, body, number of
-WriteHeader calls and the client's error are compared with the model's prediction."""
+Encodings: every call of the spaces enc (a few tables x every outcome; always run) and triple - thorough: of all
+spaces but pair - asks for the response in no / JSON / XML / gob encoding through its Accept header (generated client
+with that header, raw requests for the decode failures).
+(G) every case runs through the real generated server and client; status, goa-error header, Content-Type, the body
+parsed per Content-Type (JSON, XML, gob: name, message, flags / attributes), number of WriteHeader calls and the
+client's error are compared with the model's prediction.  A mismatch that is exactly what a known client departure
+(ErrorMap!KnownClientDeviations, predictions emitted with every case) predicts is reported under its name."""
 import json, os, hashlib, concurrent.futures as cf
 from vlib import core, httpgen as hg
 
 DEVS = ["client.single_error_ignores_header"]
+KNOWN_DEVS = ["client.gob_zero_value_missing"]       # ErrorMap!KnownClientDeviations: every case carries their predictions
+MIME = {"json": "application/json", "xml": "application/xml", "gob": "application/gob"}
 
 
 def table_key(t):
@@ -142,7 +149,127 @@ def scenario(v, sid, bind):
         else:
             raw["headers"]["Content-Type"] = ["text/csv"]
         base = {"id": sid, "service": svc, "method": meth, "raw": raw}
+    enc = o.get("enc", "none")
+    if enc != "none":       # the caller asks for an encoding of the response
+        if "raw" in base:
+            base["raw"]["headers"]["Accept"] = [MIME[enc]]
+        else:
+            base["accept"] = MIME[enc]
     return base
+
+
+class Unreadable(Exception):
+    pass
+
+
+def gob_struct(text):
+    """A gob stream holding one flat struct of strings, booleans and integers (type definition + value), as recorded
+    by the runner: bytes that are not UTF-8 arrive as U+FFFD each - in these streams only the multi-byte unsigned
+    integers (type ids, always; lengths over 127, never for these bodies).  Returns {field name: value}; fields gob
+    left out (zero values) are absent."""
+    bs = []
+    for ch in text:
+        if ch == "\ufffd":
+            bs.append(None)
+        else:
+            bs.extend(ch.encode())
+    pos = [0]
+
+    def byte():
+        if pos[0] >= len(bs):
+            raise Unreadable("short gob stream")
+        pos[0] += 1
+        return bs[pos[0] - 1]
+
+    def uint(known=True):
+        b = byte()
+        if b is None:           # byte count of a multi-byte integer: one byte follows for everything below 256
+            byte()
+            if known:
+                raise Unreadable("multi-byte integer where a small one is expected")
+            return None
+        if b >= 128:
+            raise Unreadable("unexpected byte %d" % b)
+        return b
+
+    def expect(n):
+        if uint() != n:
+            raise Unreadable("not the expected gob structure at byte %d" % pos[0])
+
+    def string():
+        n = uint()
+        raw = [byte() for _ in range(n)]
+        if any(x is None for x in raw):
+            raise Unreadable("non-text string")
+        return bytes(raw).decode()
+    # message 1: type definition of a struct: wireType{StructT: structType{CommonType{Name, Id}, Field: []fieldType{Name, Id}}}
+    uint(False)
+    uint(False)
+    expect(3), expect(1), expect(1)
+    string()
+    expect(1), uint(False), expect(0), expect(1)
+    fields = []
+    for _ in range(uint()):
+        expect(1)
+        name = string()
+        expect(1)
+        fields.append((name, uint()))      # type id as a gob integer: 2 bool, 4 int, 6 uint, 12 string
+        expect(0)
+    expect(0), expect(0)
+    # message 2: the value
+    uint(False)
+    uint(False)
+    out, k = {}, -1
+    while True:
+        d = uint()
+        if d == 0:
+            break
+        k += d
+        if k >= len(fields):
+            raise Unreadable("field number out of range")
+        name, tid = fields[k]
+        if tid == 12:
+            out[name] = string()
+        elif tid == 2:
+            out[name] = uint() != 0
+        elif tid == 4:
+            u = uint()
+            out[name] = ~(u >> 1) if u & 1 else u >> 1
+        elif tid == 6:
+            out[name] = uint()
+        else:
+            raise Unreadable("field type %d" % tid)
+    if pos[0] != len(bs):
+        raise Unreadable("trailing bytes")
+    return out, [n for n, _ in fields]
+
+
+def wire_body(ctype, text):
+    """the response body as {lower case member name: value} per Content-Type; booleans and integers as Python values"""
+    def scalar(x):
+        return True if x == "true" else False if x == "false" else int(x) if x.lstrip("-").isdigit() else x
+    if ctype == "application/json":
+        b = json.loads(text or "null")
+        if not isinstance(b, dict):
+            raise Unreadable("not a JSON object")
+        return b
+    if ctype == "application/xml":
+        import xml.etree.ElementTree as ET
+        try:
+            root = ET.fromstring(text)
+        except ET.ParseError as e:
+            raise Unreadable("XML: %s" % e)
+        if any(len(c) for c in root):
+            raise Unreadable("nested XML")
+        return {c.tag.lower(): scalar(c.text or "") for c in root}
+    if ctype == "application/gob":
+        vals, names = gob_struct(text)
+        b = {n.lower(): v for n, v in vals.items()}
+        for n in names:      # gob leaves zero values out: a reader gets the zero value
+            if n.lower() in ("temporary", "timeout", "fault"):
+                b.setdefault(n.lower(), False)
+        return b
+    raise Unreadable("content type %r" % ctype)
 
 
 def observe(v, events, bind=None):
@@ -153,11 +280,13 @@ def observe(v, events, bind=None):
         o["status"], o["writes"] = w["status"], w.get("writeHeaderCalls")
         h = {k.lower(): x for k, x in (w.get("headers") or {}).items()}
         o["goaerr"] = (h.get("goa-error") or ["none"])[0]
+        full = (h.get("content-type") or [""])[0]
+        o["ctype"] = {m: k for k, m in MIME.items()}.get(full.split(";")[0].strip(), full or "none")
         try:
-            b = json.loads(w.get("body") or "null")
-            o["body_ok"] = isinstance(b, dict)
-        except Exception:
-            b, o["body_ok"] = None, False
+            b = wire_body(full.split(";")[0].strip(), w.get("body") or "")
+            o["body_ok"] = True
+        except (Unreadable, ValueError) as e:
+            b, o["body_ok"], o["body_error"] = None, False, str(e)[:200]
         if isinstance(b, dict):
             o["body"] = b
             if "name" in b:
@@ -197,8 +326,10 @@ def compare(v, o):
         probs.append("status:%s-instead-of-%s" % (o["status"], p["status"]))
     if o["writes"] != 1:
         probs.append("writeheader-calls:%s" % o["writes"])
-    if not o.get("body_ok"):
-        probs.append("body-not-a-json-object")
+    if o.get("ctype") != p.get("ctype", "json"):
+        probs.append("content-type:%s-instead-of-%s" % (o.get("ctype"), p.get("ctype", "json")))
+    elif not o.get("body_ok"):
+        probs.append("body-unreadable:%s" % o.get("ctype"))
     if o["goaerr"] != p["goaerr"]:
         probs.append("goa-error-header:%s-instead-of-%s" % (o["goaerr"], p["goaerr"]))
     custom = out["kind"] in ("declared", "wrapped") and next(x for x in v["table"] if x["name"] == out["name"])["type"] == "custom"
@@ -282,13 +413,16 @@ def run(ctx):
     seed = {"Seed": str(ctx.seed % 10001)}
     # quick: the cut "pairq" of the pair space (one pair per ordered pair of resolution paths, rotated by the seed) goes through
     # real code; thorough: the whole pair space is checked and emitted, select() takes several pairs per stratum
+    enc_spaces = '{"enc", "triple"}' if quick else '{"enc", "triple", "base", "place1", "pairq"}'
     jobs = [
         lambda: ctx.mc_expect_violation("mc/MC_ErrorMap", consts={"Deviations": '{"server.no_goa_error_header"}', "Spaces": '{"base"}'}, workers=2, label="MC dev header"),
         lambda: ctx.mc_expect_violation("mc/MC_ErrorMap", consts={"Deviations": '{"prepare.found_flag_not_reset"}', "Spaces": '{"pair"}'}, workers=2, label="MC dev found"),
         lambda: ctx.gen("mc/MC_ErrorMap", "gen/Gen_ErrorMap.cfg", label="Gen ErrorMap", workers=8,
-                        consts=dict(seed, Spaces='{"base", "place1", "pairq"}' if quick else '{"base", "place1", "pairq", "pair"}')).vectors,
-        lambda: ctx.gen("mc/MC_ErrorMap", "gen/Gen_ErrorMap.cfg", consts={"Spaces": '{"triple"}'}, simulate=ntraces, depth=20, workers=1, label="Sim ErrorMap triples").vectors,
+                        consts=dict(seed, EncSpaces=enc_spaces, Spaces='{"base", "place1", "pairq", "enc"}' if quick else '{"base", "place1", "pairq", "pair", "enc"}')).vectors,
+        lambda: ctx.gen("mc/MC_ErrorMap", "gen/Gen_ErrorMap.cfg", consts={"Spaces": '{"triple"}', "EncSpaces": enc_spaces}, simulate=ntraces, depth=20, workers=1, label="Sim ErrorMap triples").vectors,
         lambda: hg.Pipeline(ctx, "gen-err"),
+        lambda: ctx.mc_expect_violation("mc/MC_ErrorMap", consts={"Deviations": '{"encode.xml_timeout_is_temporary"}', "Spaces": '{"enc"}', "EncSpaces": '{"enc"}'}, workers=1, label="MC dev xml"),
+        lambda: ctx.mc_expect_violation("mc/MC_ErrorMap", consts={"Deviations": '{"client.gob_zero_value_missing"}', "Spaces": '{"enc"}', "EncSpaces": '{"enc"}'}, workers=1, label="MC dev gob"),
     ]
     with cf.ThreadPoolExecutor(max_workers=len(jobs) + 1) as ex:       # independent TLC runs (distinct labels = distinct scratch directories)
         futs = [ex.submit(j) for j in jobs]
@@ -349,7 +483,7 @@ def real_code(ctx, quick, vectors, grown, pl, ntraces):
         scen.setdefault(di, []).append(scenario(v, sid, bind))
         meta[sid] = (v, bind)
     events = pl.run_all(bins, scen)
-    nontrivial, per_space, paths_seen = set(), {}, set()
+    nontrivial, per_space, paths_seen, encs_seen = set(), {}, set(), set()
     for sid, (v, bind) in meta.items():
         ctx.cov["evaluations"] += 1
         t, out = v["table"], v["outcome"]
@@ -361,15 +495,22 @@ def real_code(ctx, quick, vectors, grown, pl, ntraces):
             raise core.Infra("no events for scenario %s" % sid)
         o = observe(v, events[sid], bind)
         probs = compare(v, o)
+        if "body-unreadable:gob" in probs:       # the reader of gob bodies only knows flat structs: cannot observe, no verdict
+            raise core.Infra("gob body not readable (%s): %s" % (o.get("body_error"), json.dumps(events[sid])[:1500]))
+        known = None
+        if probs:        # a known departure whose prediction is exactly what happened names the finding
+            known = next((d for d in KNOWN_DEVS if d in (v.get("known") or {}) and not compare(dict(v, pred=dict(v["pred"], **v["known"][d])), o)), None)
+        encs_seen.add((out["kind"] if out["kind"] != "decode" else "decode", o.get("ctype")))
         where_ = ""
         if out["kind"] in ("declared", "wrapped"):
             i = next(i for i, e in enumerate(t) if e["name"] == out["name"])
             where_ = "/" + "-".join(v["paths"][i])
             if len(t) > 1:
                 paths_seen.add(core.canon([v["paths"], i]))
+        enc_ = "" if out.get("enc", "none") == "none" else "/accept-" + out["enc"]
         for p in probs:
             shared = len({e["status"] for e in t}) < len(t)
-            ctx.violation("C05/%s/%s%s/%s" % (out["kind"], "shared-status" if shared else "own-status", where_, p),
+            ctx.violation(known or "C05/%s%s/%s%s/%s" % (out["kind"], enc_, "shared-status" if shared else "own-status", where_, p),
                           "%s: table %s outcome %s -> %s" % (p, json.dumps(t), json.dumps(out), json.dumps({k: o[k] for k in o if k != "body"})[:500]),
                           {"vector": v, "binding": bind, "observed": o, "events": events[sid]})
         if not probs and ctx.cov["evaluations"] % 600 == 1:
@@ -388,11 +529,23 @@ def real_code(ctx, quick, vectors, grown, pl, ntraces):
             bad["pred"][field] = val
             if not compare(bad, observe(bad, events[sid], bind)):
                 raise core.Infra("self-test: prediction with a corrupted %s was accepted" % field)
-        ctx.cov["selftest"] = "3 corrupted predictions refused"
+        # the body of every encoding is really read: a flipped timeout flag of an undeclared error is refused in JSON, XML and gob
+        for enc in ("json", "xml", "gob"):
+            probe = next(((v, bind, sid) for sid, (v, bind) in meta.items() if v["outcome"]["kind"] == "service" and v["outcome"].get("enc") == enc and
+                          not compare(v, observe(v, events[sid], bind))), None)
+            if probe is None:
+                raise core.Infra("self-test: no accepted undeclared service error answered in %s" % enc)
+            v, bind, sid = probe
+            bad = copy.deepcopy(v)
+            bad["pred"]["bodyflags"]["t"] = not bad["pred"]["bodyflags"]["t"]
+            if "body-flags" not in compare(bad, observe(bad, events[sid], bind)):
+                raise core.Infra("self-test: flipped timeout flag of a %s body was accepted" % enc)
+        ctx.cov["selftest"] = "6 corrupted predictions refused"
     ctx.cov["distinct_nontrivial"] = len(nontrivial)
     ctx.cov["designs"] = len(designs)
     ctx.cov["evaluations_per_space"] = per_space
     ctx.cov["declared_error_positions_observed"] = len(paths_seen)
+    ctx.cov["outcome_kind_x_content_type_observed"] = sorted("%s/%s" % x for x in encs_seen)
 
 
 def replay(ctx, rp):
